@@ -114,7 +114,7 @@ fn classify_boundaries(a: &mut Acc, px: &[(i32, i32, u32)], bs: &[((u16, u16, u1
 
 pub fn c03(args: &Args) -> Acc {
     let mut total = Acc::new();
-    for (stage, l1, n) in [("l2", false, args.n(2500, 150_000)), ("l1", true, args.n(2500, 150_000))] {
+    for (stage, l1, n) in [("l2", false, args.n(25_000, 600_000)), ("l1", true, args.n(25_000, 600_000))] {
         if !args.want_stage(stage) {
             continue;
         }
@@ -124,7 +124,7 @@ pub fn c03(args: &Args) -> Acc {
             let cfg = gen_cfg_batch(&mut rng, l1);
             let (lw, lh) = lsize(&cfg);
             let mut tags = TagGen::new(&mut rng);
-            let maxpx = if args.quick() { 400 } else { 2000 };
+            let maxpx = if crate::small() { 130 } else if args.quick() { 400 } else { 2000 };
             let mut px = gen::gen_pixel_stream(&mut rng, lw, lh, Mode::InBounds, &mut tags, maxpx, 50, 100);
             if rng.chance(1, 10) {
                 // e-g primitives as streams
@@ -240,7 +240,7 @@ pub fn c20(args: &Args) -> Acc {
     let mut total = Acc::new();
     // (a) rectangle fills / clear: exactly one RAMWR per call with non-empty clipped area
     if args.want_stage("fills") {
-        let n = args.n(3000, 100_000);
+        let n = args.n(30_000, 500_000);
         let acc = par_cases(n, args.threads, args.case, |idx, a| {
             let mut rng = Rng::for_case(args.seed, "C20/fills", &args.tier, idx);
             let cfg = gen::gen_cfg(&mut rng, &CfgOpts { external: true, l1: true, l2: true, max_l2_area: 1024 });
@@ -313,7 +313,7 @@ pub fn c20(args: &Args) -> Acc {
                 J::obj().with("probe", "200-pixel run on ILI9341Rgb565/l1-serial"),
             );
         }
-        let n = args.n(3000, 150_000);
+        let n = args.n(30_000, 500_000);
         let acc = par_cases(n, args.threads, args.case, |idx, a| {
             let mut rng = Rng::for_case(args.seed, "C20/runs", &args.tier, idx);
             let l1 = rng.bool();
@@ -375,7 +375,7 @@ pub fn c20(args: &Args) -> Acc {
     }
     // (c) SPI: a burst of b bytes in at most floor(b / usable) + 1 transactions
     if args.want_stage("spi") {
-        let n = args.n(3000, 100_000);
+        let n = args.n(30_000, 500_000);
         let acc = par_cases(n, args.threads, args.case, |idx, a| {
             let mut rng = Rng::for_case(args.seed, "C20/spi", &args.tier, idx);
             let model = *rng.pick(&[ModelId::Ext256x256, ModelId::Ext240x320c666, ModelId::ILI9341Rgb565, ModelId::ILI9341Rgb666, ModelId::ST7789]);
@@ -475,7 +475,7 @@ pub fn measure_row_capacity() -> u64 {
 
 pub fn c04(args: &Args) -> Acc {
     let mut total = Acc::new();
-    let n = args.n(6000, 300_000);
+    let n = args.n(60_000, 2_000_000);
     let acc = par_cases(n, args.threads, args.case, |idx, a| {
         let mut rng = Rng::for_case(args.seed, "C04", &args.tier, idx);
         let cfg = gen::gen_cfg(&mut rng, &CfgOpts { external: true, l1: true, l2: true, max_l2_area: 1024 });
@@ -486,7 +486,10 @@ pub fn c04(args: &Args) -> Acc {
         loop {
             rect = gen::gen_rect(&mut rng, lw, lh, Mode::Hostile, maxvis);
             lvi = gen::last_visible_index(&rect, lw, lh);
-            if lvi.unwrap_or(0) <= 1 << 21 {
+            if lvi.is_none() && rng.chance(4, 5) {
+                continue; // keep some invisible rectangles, but not half of all cases
+            }
+            if lvi.unwrap_or(0) <= if crate::small() { 300 } else { 1 << 21 } {
                 break;
             }
         }
